@@ -626,7 +626,12 @@ func (w *World) opInsert(op *Op) {
 		return
 	}
 	key, val := w.kd.Key(op.Key), w.vd.Val(op.Val)
-	if w.faultedOp(op, t, func() error { return t.m.Insert(ctx, key, val) }) {
+	if w.faultedOp(op, t, func() error { return t.m.Insert(ctx, key, val) }, func() {
+		if old, ok := t.model.Get(op.Key); !ok || w.vd.Distinct(old, op.Val) {
+			t.modKeys[op.Key] = true
+		}
+		t.model.Put(op.Key, op.Val)
+	}) {
 		return
 	}
 	r := guard(func() error { return t.m.Insert(ctx, key, val) })
@@ -652,7 +657,12 @@ func (w *World) opDelete(op *Op) {
 	key, val := w.kd.Key(op.Key), w.vd.Val(op.Val)
 	cur, present := t.model.Get(op.Key)
 	shouldOK := present && !w.vd.Distinct(cur, op.Val)
-	if w.faultedOp(op, t, func() error { return t.m.Delete(ctx, key, val) }) {
+	if w.faultedOp(op, t, func() error { return t.m.Delete(ctx, key, val) }, func() {
+		if shouldOK {
+			t.model.Del(op.Key)
+			t.modKeys[op.Key] = true
+		}
+	}) {
 		return
 	}
 	if t.unsure {
@@ -692,7 +702,7 @@ func (w *World) opDelete(op *Op) {
 // faultedOp runs a modifying op with one Load call of that op failing (flavour "loadfault",
 // index op.N). Whatever the op returns, the tree is from then on judged only by oracles that do
 // not need the model (shape, size-vs-reachable, content addressing of what it persists).
-func (w *World) faultedOp(op *Op, t *Tree, call func() error) bool {
+func (w *World) faultedOp(op *Op, t *Tree, call func() error, onSuccess func()) bool {
 	if op.F != "loadfault" || w.cfg.InMemory {
 		return false
 	}
@@ -702,6 +712,28 @@ func (w *World) faultedOp(op *Op, t *Tree, call func() error) bool {
 	before := d.Fired["load-fail"]
 	r := guard(call)
 	d.ClearFaults()
+	if w.prop == "C04" {
+		// canonical form is judged across failed operations too: an operation that returned an
+		// error must have left the tree as it was (so the model stands); one that returned nil
+		// took effect. The tree stays under the model-based oracles.
+		if d.Fired["load-fail"] != before {
+			w.st.Faults["load-fail"]++
+		}
+		if r.panicked != nil {
+			t.unsure = true
+			return true
+		}
+		if r.err == nil {
+			onSuccess()
+		} else if d.Fired["load-fail"] != before {
+			w.st.Probes["modifying-op-failed-under-load-fault"]++
+		}
+		if int(t.m.Height()) != t.baseHeight {
+			t.hChanged = true
+		}
+		w.sanity(t, "faulted-"+op.K)
+		return true
+	}
 	if d.Fired["load-fail"] == before {
 		// the fault did not fire: the op ran normally; apply the model update by re-dispatching
 		// is not possible (already executed) — treat the tree as unsure as well, conservatively
